@@ -60,7 +60,7 @@ func main() {
 	}
 	for _, dt := range ctypes {
 		dt := dt
-		for _, m := range []cql.Mode{cql.Plain, cql.Ptr, cql.Iface} {
+		for _, m := range cql.Modes() {
 			gt, ok := cql.GoType(dt, m)
 			if !ok {
 				continue
